@@ -93,6 +93,12 @@ T = [
     ("fcb3", "FCB", "1,2,3", "data", 3),
     ("fdb1", "FDB", "$1234", "data", 2),
     ("fdb2", "FDB", "1,2", "data", 4),
+    ("fdb.hex2", "FDB", "$80", "data", 2),
+    ("fdb.bin8", "FDB", "%00010000", "data", 2),
+    ("fdb.chr", "FDB", "'A", "data", 2),
+    ("fcb.hex4", "FCB", "$0005", "data", 1),
+    ("fcb.bin16", "FCB", "%0000000000000101", "data", 1),
+    ("fcb.neg", "FCB", "-1", "data", 1),
     ("fcc2", "FCC", '"AB"', "data", 2),
     ("fcc11", "FCC", "/HELLO WORLD/", "data", 11),
     ("rmb0", "RMB", "0", "data", 0),
